@@ -1,6 +1,7 @@
 package lab
 
 import (
+	"github.com/BurntSushi/toml"
 	"context"
 	"fmt"
 	"net"
@@ -41,6 +42,10 @@ var (
 // default route through an unresolved gateway, "onlink" = a 0.0.0.0-gateway
 // route only, "mixed" = some peers resolved, some behind an unresolved gateway. With loop=true the
 // real Start() receive loop and knock detector run.
+// CanaryConfig is a TOML fragment with listener options (e.g. "do_arp=true") decoded into every Canary that
+// StartCanary builds; empty = defaults.
+var CanaryConfig string
+
 func StartCanary(id, tables string, peers []net.IP, loop bool) (*CanaryHost, error) {
 	ifc, err := net.InterfaceByName("lo")
 	if err != nil {
@@ -89,6 +94,13 @@ func StartCanary(id, tables string, peers []net.IP, loop bool) (*CanaryHost, err
 	c, fd, err := canary.NewVerif(*ifc, ac, rt, NewCapture(id))
 	if err != nil {
 		return nil, err
+	}
+	if CanaryConfig != "" {
+		// the listener's own configuration keys, applied through the decoder the server uses for the
+		// [listener] table: whatever an operator can switch on is switched on here
+		if _, err := toml.Decode(CanaryConfig, c); err != nil {
+			return nil, fmt.Errorf("listener configuration: %v", err)
+		}
 	}
 	h := &CanaryHost{C: c, Fd: fd, ID: id, Ifc: *ifc}
 	if loop {
